@@ -79,17 +79,23 @@ impl SubscriptionTrie {
     }
 
     let final_node_r = current_node_arc.read();
-    let old_count = final_node_r.count.fetch_sub(1, Ordering::Relaxed);
+    // Decrement only if non-zero: a blind fetch_sub on a zero count wraps to usize::MAX until
+    // the compensating add, and a concurrent matches() would see a phantom subscription.
+    let previous = final_node_r
+      .count
+      .fetch_update(Ordering::Relaxed, Ordering::Relaxed, |c| c.checked_sub(1));
     #[cfg(rzmq_verif)]
     crate::verif::sched::point("trie.unsub.decremented");
 
-    if old_count > 0 {
-      tracing::debug!(topic = ?String::from_utf8_lossy(topic), new_count = old_count - 1, "Unsubscribed");
-      old_count == 1
-    } else {
-      final_node_r.count.fetch_add(1, Ordering::Relaxed);
-      tracing::warn!(topic = ?String::from_utf8_lossy(topic), "Unsubscribe attempt on topic with zero count");
-      false
+    match previous {
+      Ok(old_count) => {
+        tracing::debug!(topic = ?String::from_utf8_lossy(topic), new_count = old_count - 1, "Unsubscribed");
+        old_count == 1
+      }
+      Err(_) => {
+        tracing::warn!(topic = ?String::from_utf8_lossy(topic), "Unsubscribe attempt on topic with zero count");
+        false
+      }
     }
   }
 
